@@ -133,8 +133,8 @@ Proof.
     + repeat (apply Forall_cons; [unfold wf_ifield; cbn [if_len if_num if_ent if_type]; repeat split; vm_compute; reflexivity|]). apply Forall_nil.
     + cbn. lia.
     + repeat (apply Forall_cons; [unfold wf_ifield; cbn [if_len if_num if_ent if_type]; repeat split; vm_compute; reflexivity|]). apply Forall_nil.
-    + left. vm_compute. discriminate.
-    + right. vm_compute. discriminate.
+    + left. split; vm_compute; [discriminate|reflexivity].
+    + right. split; vm_compute; [reflexivity|discriminate].
   - vm_compute. eexists. eexists. repeat split; reflexivity.
 Qed.
 
